@@ -83,8 +83,14 @@ pub fn multi_alg(r: &mut Report, repetitions: usize, tag: &str) {
     use in_toto::models::{LinkMetadataBuilder, TargetDescription};
     let owner = key(1); let ka = key(2); let kb = key(3);
     let td = |a: u8, b: u8| -> TargetDescription { [(HashAlgorithm::Sha256, HashValue::new(vec![a; 32])), (HashAlgorithm::Sha512, HashValue::new(vec![b; 64]))].into_iter().collect() };
+    let only = |alg: HashAlgorithm, v: u8, n: usize| -> TargetDescription { [(alg, HashValue::new(vec![v; n]))].into_iter().collect() };
     for (id, dst, src, expect) in [("both-equal", td(1, 1), td(1, 1), true), ("sha256-equal-sha512-differs", td(1, 1), td(1, 2), false),
-                                   ("sha512-equal-sha256-differs", td(1, 1), td(2, 1), false), ("both-differ", td(1, 1), td(2, 2), false)] {
+                                   ("sha512-equal-sha256-differs", td(1, 1), td(2, 1), false), ("both-differ", td(1, 1), td(2, 2), false),
+                                   // different sets of algorithms are different descriptions, whatever the shared ones say
+                                   ("disjoint-algorithm-sets", only(HashAlgorithm::Sha512, 1, 64), only(HashAlgorithm::Sha256, 1, 32), false),
+                                   ("source-has-an-extra-algorithm", only(HashAlgorithm::Sha256, 1, 32), td(1, 1), false),
+                                   ("destination-has-an-extra-algorithm", td(1, 1), only(HashAlgorithm::Sha256, 1, 32), false),
+                                   ("single-algorithm-equal", only(HashAlgorithm::Sha512, 3, 64), only(HashAlgorithm::Sha512, 3, 64), true)] {
         let d = tmpdir();
         let mk = |name: &str, mats: Vec<(&str, TargetDescription)>, prods: Vec<(&str, TargetDescription)>| LinkMetadataBuilder::new().name(name.to_string())
             .materials(mats.into_iter().map(|(p, t)| (vp(p), t)).collect()).products(prods.into_iter().map(|(p, t)| (vp(p), t)).collect()).build().unwrap();
